@@ -27,7 +27,10 @@ RULE = ('Hypothesis: CamxSpec (format in uamiv[AVERAGE EMISSIONS AIRQUALITY '
         'denormals and -0.0; header floats exactly representable; 4 '
         'projection header variants) x direction.  Direction w2r: in-memory '
         'file built from arrays (PseudoNetCDFFile or ioapi_base.from_arrays, '
-        'with or without ETFLAG) -> library writer -> bytes must tile as '
+        'with or without ETFLAG; variables held as float32, float64, '
+        'big-endian float32 or int32 with values exactly representable in '
+        'float32, the expected payload being the float32 conversion) -> '
+        'library writer -> bytes must tile as '
         'Fortran records (leading == trailing marker, no gap, no trailing '
         'bytes), reference decoder must accept the layout (record sizes and '
         'counts follow from header nspec/nx/ny/nz, record names follow the '
@@ -63,6 +66,7 @@ def cases(draw, tier='quick'):
             routes = ['pnc', 'ioapi']
         spec['route'] = draw(st.sampled_from(routes))
         spec['etflag'] = bool(fmt == 'uamiv' and draw(st.booleans()))
+        draw(C.input_dtypes(spec))
         if fmt == 'wind' and spec['lstagger'] is None:
             # the writer documents/uses LSTAGGER: files built from arrays
             # carry one
@@ -393,7 +397,8 @@ def check_case(spec):
     r.label('dir:' + spec['dir'])
     if spec['dir'] == 'w2r':
         r.label('route:' + spec.get('route', 'pnc') +
-                ('+etflag' if spec.get('etflag') else ''))
+                ('+etflag' if spec.get('etflag') else ''),
+                'vdtype:' + spec.get('vdtype', 'f4'))
         check_w2r(r, spec, m)
     else:
         r.label('reader:' + spec.get('reader', 'memmap'))
